@@ -130,6 +130,7 @@ def run_registry(desc):
     H, ir = S.H, S.ir
     calls = {n.id for n in ir.nodes if n.kind == "call"}
     bad = None
+    raised = None
     checked = 0
     for step in range(desc["steps"]):
         if step:
@@ -144,8 +145,10 @@ def run_registry(desc):
         out_ids = history.choose_out(rng, S, rng.choice(["all", "some", "sinks", "one"]))
         exp = S.expect(out_ids, None)
         res, exc = S.run(out_ids, W=desc["W"], sched=desc["sched"], perturb=desc["perturb"], seed=desc["seed"] + step)
-        if exc is not None:
-            return {"status": "inconclusive", "detail": f"registry run raised {exc!r}"}
+        if exc is not None and raised is None:
+            # a clean registry run that raises is not what C01 decides - but whatever DID start in it is still held to the order, and so are
+            # the following steps (from the stores as that run left them)
+            raised = f"registry run raised {exc!r}"[:300]
         ended = set()
         for seq, kind, key, tid, extra in H.events:
             if kind == "end":
@@ -163,6 +166,8 @@ def run_registry(desc):
             "sig": hashlib.sha1(("\n".join(S.describe(200)) + f"|reg|{desc['W']}|{desc['steps']}").encode()).hexdigest()[:16]}
     if bad:
         res_.update(status="violation", detail=bad, mechanism="early-start", witness={"plan": S.describe(200), "history": H.compact_history(600)})
+    elif raised:
+        return {"status": "inconclusive", "detail": raised}
     return res_
 
 
